@@ -15,6 +15,40 @@ pub fn workers() -> usize {
         })
 }
 
+/// Wall-clock limit for a single run (seconds). A run of any generated workload takes seconds; a
+/// run that has not returned after this long is stuck inside the library (an endless loop inside
+/// one instruction cannot be stopped by the instruction cap). The process then exits with status
+/// 3, which `check` treats like a host abort: it repeats the batch with crash sentinels and
+/// confirms the stuck case in a fresh process.
+pub static RUN_LIMIT_SECS: AtomicU64 = AtomicU64::new(300);
+
+pub fn run_limit() -> u64 {
+    std::env::var("VERIF_RUN_LIMIT_SECS")
+        .ok()
+        .and_then(|s| s.parse().ok())
+        .unwrap_or_else(|| RUN_LIMIT_SECS.load(Ordering::Relaxed))
+}
+
+/// watchdog for a single-case process (replay): exit 3 if `f` does not return in time
+pub fn with_process_watchdog<T>(secs: u64, f: impl FnOnce() -> T) -> T {
+    let done = std::sync::Arc::new(std::sync::atomic::AtomicBool::new(false));
+    let d2 = done.clone();
+    std::thread::spawn(move || {
+        let start = std::time::Instant::now();
+        while start.elapsed().as_secs() < secs {
+            std::thread::sleep(std::time::Duration::from_millis(500));
+            if d2.load(Ordering::SeqCst) {
+                return;
+            }
+        }
+        eprintln!("NOTE: the case did not return within {} s of wall time; exiting with status 3", secs);
+        std::process::exit(3);
+    });
+    let r = f();
+    done.store(true, Ordering::SeqCst);
+    r
+}
+
 pub fn par_runs<R: Send, F: Fn(u64) -> R + Sync>(n: u64, f: F) -> Vec<R> {
     // the determinism self-test runs every batch at a fraction of its size
     let n = match std::env::var("VERIF_SCALE_DIV").ok().and_then(|s| s.parse::<u64>().ok()) {
@@ -24,12 +58,38 @@ pub fn par_runs<R: Send, F: Fn(u64) -> R + Sync>(n: u64, f: F) -> Vec<R> {
     let next = AtomicU64::new(0);
     let results: Mutex<Vec<(u64, R)>> = Mutex::new(Vec::with_capacity(n as usize));
     let w = workers().max(1);
+    // per worker: (run index + 1, start of the run in ms since the batch began); 0 = idle
+    let beats: Vec<(AtomicU64, AtomicU64)> = (0..w).map(|_| (AtomicU64::new(0), AtomicU64::new(0))).collect();
+    let batch_start = std::time::Instant::now();
+    let live = AtomicU64::new(w as u64);
+    let limit = run_limit();
     std::thread::scope(|s| {
-        for _ in 0..w {
+        // the watchdog
+        s.spawn(|| {
+            while live.load(Ordering::SeqCst) > 0 {
+                std::thread::sleep(std::time::Duration::from_millis(250));
+                let now = batch_start.elapsed().as_millis() as u64;
+                for (run, started) in beats.iter() {
+                    let r = run.load(Ordering::SeqCst);
+                    let t = started.load(Ordering::SeqCst);
+                    if r > 0 && now.saturating_sub(t) > limit * 1000 {
+                        eprintln!("NOTE: run {} did not return within {} s of wall time; exiting with status 3", r - 1, limit);
+                        println!("NOTE: run {} did not return within {} s of wall time", r - 1, limit);
+                        std::process::exit(3);
+                    }
+                }
+            }
+        });
+        for wi in 0..w {
+            let beats = &beats;
+            let live = &live;
+            let f = &f;
+            let next = &next;
+            let results = &results;
             // VMs recurse on the native stack in places; give workers a roomy one
             std::thread::Builder::new()
                 .stack_size(256 << 20)
-                .spawn_scoped(s, || {
+                .spawn_scoped(s, move || {
                     crate::kernel::install_thread_state();
                     let mut local = vec![];
                     loop {
@@ -40,7 +100,10 @@ pub fn par_runs<R: Send, F: Fn(u64) -> R + Sync>(n: u64, f: F) -> Vec<R> {
                         if std::env::var("VERIF_DEBUG").is_ok() {
                             eprintln!("run {}", i);
                         }
+                        beats[wi].1.store(batch_start.elapsed().as_millis() as u64, Ordering::SeqCst);
+                        beats[wi].0.store(i + 1, Ordering::SeqCst);
                         let r = f(i);
+                        beats[wi].0.store(0, Ordering::SeqCst);
                         if std::env::var("VERIF_DEBUG").is_ok() {
                             eprintln!("done {}", i);
                         }
@@ -50,6 +113,7 @@ pub fn par_runs<R: Send, F: Fn(u64) -> R + Sync>(n: u64, f: F) -> Vec<R> {
                         }
                     }
                     results.lock().unwrap().append(&mut local);
+                    live.fetch_sub(1, Ordering::SeqCst);
                 })
                 .expect("spawn worker");
         }
